@@ -273,6 +273,11 @@ def run(chk):
     for ji, (ti, start, steps) in enumerate(jobs):
         text_full = ('/' if start == 'root' else '') + steps_str(steps)
         text_abbr = ('/' if start == 'root' else '') + steps_str(steps, abbreviate=True)
+        # a parenthesised sub-path followed by the remaining steps selects the same nodes: (a/b)/c = a/b/c
+        text_paren = None
+        if len(steps) >= 2:
+            k = 1 + (ji % (len(steps) - 1))
+            text_paren = '(' + ('/' if start == 'root' else '') + steps_str(steps[:k]) + ')/' + steps_str(steps[k:])
         for lib in (('lxml',) if ti in prepost else ('et', 'lxml')):
             root, node, nodes, doc = get(ti, lib)
             if lib == 'lxml' and ti not in prepost and doc != get(ti, 'et')[3]:
@@ -286,7 +291,10 @@ def run(chk):
             for v, parser in parsers.items():
                 if quick and lib == 'lxml' and v in ('20', '30') and ji % 4:
                     continue
-                for text in ((text_full, text_abbr) if (ji % 5 == 0 and text_abbr != text_full) else (text_full,)):
+                texts = (text_full, text_abbr) if (ji % 5 == 0 and text_abbr != text_full) else (text_full,)
+                if text_paren is not None and ji % 3 == 0:
+                    texts = texts + (text_paren,)
+                for text in texts:
                     try:
                         tok = parser.parse(text)
                     except ElementPathError as e:
